@@ -52,6 +52,8 @@ pub fn c13(opts: &Opts) -> Report {
                 _ => gens::text(&mut ctx.rng, 5),
             } };
             let input = if body.starts_with('-') && body.len() <= 2 && ctx.rng.chance(1, 2) { body.clone() } else { format!("{}{}", body, ws_tail(&mut ctx.rng)) };
+            // a template the library rejects with a LONG message full of multi-byte characters (every alignment over the run)
+            let tpl = if i % 40 == 27 { ctx.rep.bump("long_error_messages"); let k = 140 + (i / 40) as usize % 9; let shift = "a".repeat((i / 40) as usize % 4); match ctx.rng.below(3) { 0 => format!("{{nosuchop{shift}{}}}", "é".repeat(k)), 1 => format!("{{filter:[{shift}{}}}", "日本語".repeat(40 + k % 5)), _ => format!("{{upper|nosuch{shift}{}}}", "😀".repeat(70)) } } else { tpl };
             // every 20th configuration: the INPUT argument is exactly "-" (or "--"), template and input both given as
             // arguments, stdin a pipe with or without data: the argument is the input, verbatim
             let dash_case = i % 20 == 3;
